@@ -310,7 +310,11 @@ def run_case(c):
             for layout in ("full", "compact"):
                 A = fcm if layout == "full" else np.array(fcm[p2s])
                 write_FORCE_CONSTANTS(A, filename="FC_" + layout, p2s_map=p2s)
-                B = parse_FORCE_CONSTANTS(filename="FC_" + layout, p2s_map=p2s)
+                try:
+                    B = parse_FORCE_CONSTANTS(filename="FC_" + layout, p2s_map=p2s)
+                except Exception as e:
+                    bad("force_constants_file_unparsable", "FORCE_CONSTANTS (%s) written by phonopy cannot be parsed back: %r (max |value| %.3e)" % (layout, e, np.abs(A).max()), layout=layout)
+                    continue
                 obs["n_fileio"] = obs.get("n_fileio", 0) + 1
                 if B.shape != A.shape or np.abs(A - B).max() > 0.5000001e-15 + 8 * np.finfo(float).eps * np.abs(A).max():
                     bad("force_constants_file", "FORCE_CONSTANTS (%s) round trip differs by %.3e" % (layout, np.abs(A - B).max() if B.shape == A.shape else np.inf), layout=layout)
@@ -342,7 +346,11 @@ def run_case(c):
             disp = rng.standard_normal((4, n, 3)) * 0.03
             ds2 = {"displacements": disp, "forces": -np.einsum("ijab,sjb->sia", fcm, disp) * (1e3 if s > 1e3 else 1.0)}
             write_FORCE_SETS(ds2, filename="FS2")
-            r2 = parse_FORCE_SETS(natom=n, filename="FS2")
+            try:
+                r2 = parse_FORCE_SETS(natom=n, filename="FS2")
+            except Exception as e:
+                bad("force_constants_file_unparsable", "type-2 FORCE_SETS written by phonopy cannot be parsed back: %r" % (e,))
+                r2 = {"displacements": disp, "forces": ds2["forces"]}
             obs["n_fileio"] += 1
             if np.abs(np.array(r2["displacements"]) - disp).max() > 0.5000001e-8 * 1.01 or np.abs(np.array(r2["forces"]) - ds2["forces"]).max() > 0.5000001e-8 * 1.01 + 8e-16 * np.abs(ds2["forces"]).max():
                 bad("force_sets_file", "FORCE_SETS type 2 round trip differs beyond the printed precision (8 decimals)")
